@@ -130,8 +130,19 @@ def crash_frame(tool, text, exppp_o):
         sc.close()
 
 
+def f9_probe():
+    """does the tree still have finding F9?  exp2python on the smallest schema with one attribute"""
+    table = F.ErrTable()
+    sc = F.Scratch("c04_f9_%d" % os.getpid())
+    try:
+        res = run_all(table, sc, "SCHEMA f9probe;\nENTITY e;\n  a : INTEGER;\nEND_ENTITY;\nEND_SCHEMA;\n", ["exp2python"], True, "f9")
+        return bool(res["exp2python"]["sig"])
+    finally:
+        sc.close()
+
+
 def work_base(arg):
-    idx, src, tier, seed, f9_known = arg
+    idx, src, tier, seed, f9_known, f9_present = arg
     table = F.ErrTable()
     sc = F.Scratch("c04_%d" % idx)
     ev = common.Evidence(PROP, LEVEL, tier, seed, RULE)
@@ -173,7 +184,7 @@ def work_base(arg):
                     cases.append(Case("unlisted", m["text"], tname, m["decl"], tname, m["expect"]))
         for k, case in enumerate(cases):
             tools = list(F.TOOLS)
-            if case.kind in ("valid", "cocktail", "seed") and f9_known and has_attribute(case.text) and not (idx < 3 and case.kind == "valid"):
+            if case.kind in ("valid", "cocktail", "seed") and f9_known and f9_present and has_attribute(case.text) and not (idx < 3 and case.kind == "valid"):
                 tools.remove("exp2python")
                 ev.exclude("exp2python not run on a valid schema with an entity attribute (finding %s), except probes" % F9_SIG)
             exppp_o = rnd.random() < 0.5
@@ -196,10 +207,10 @@ def work_base(arg):
             ev.case(common.chash(case.text), case.kind in ("listed", "unlisted"), classes=classes, sample=sample)
             ev.bump("tool-runs", len(res))
             for sig, det, tool in judge(case, res, table):
-                if sig.startswith("valid-signal:exp2python") and has_attribute(case.text):
-                    sig = F9_SIG
+                if f9_present and sig.startswith("valid-signal:exp2python") and has_attribute(case.text):
+                    sig = F9_SIG      # while F9 is in the tree every such crash is attributed to it (cannot be told apart cheaply)
                 fails.append({"sig": sig, "what": det, "text": case.text, "kind": case.kind, "cls": case.cls, "tool": tool, "exppp_o": exppp_o,
-                              "crash": ("signal" in sig)})
+                              "crash": ("signal" in sig), "f9_present": f9_present})
         return {"ev": ev.partial(), "fails": fails}
     finally:
         sc.close()
@@ -215,7 +226,7 @@ def recheck(f):
         res = run_all(table, sc, f["text"], tools, f.get("exppp_o", True), "confirm")
         out = []
         for sig, det, tool in judge(case, res, table):
-            if sig.startswith("valid-signal:exp2python") and has_attribute(f["text"]):
+            if f.get("f9_present") and sig.startswith("valid-signal:exp2python") and has_attribute(f["text"]):
                 sig = F9_SIG
             out.append((sig, det))
         return out
@@ -228,6 +239,8 @@ def main(tier, seed):
     ev = common.Evidence(PROP, LEVEL, tier, seed, RULE)
     findings = common.Findings(os.environ.get("VERIF_FINDINGS"))
     f9_known = findings.match(PROP, F9_SIG) is not None
+    f9_present = f9_probe()
+    ev.extra["finding_F9_present_in_tree"] = f9_present
     n = 90 if tier == "quick" else 900
     srcs = M.sources(common.sub_seed(seed, PROP, "schemas"), n, {"expgen": {"max_ent": 8, "max_typ": 6}})
     srcs += M.sources(common.sub_seed(seed, PROP, "noattr"), n // 3, {"expgen": NOATTR_CFG}, profile="expgen")
@@ -240,7 +253,7 @@ def main(tier, seed):
         except OSError:
             pass
     ev.extra["schema_source"] = sorted(set(s["origin"] for s in srcs))
-    results = common.pmap(common.guarded(work_base), [(i, s, tier, seed, f9_known) for i, s in enumerate(srcs)])
+    results = common.pmap(common.guarded(work_base), [(i, s, tier, seed, f9_known, f9_present) for i, s in enumerate(srcs)])
     rc = 0
     fails = []
     for status, res in results:
@@ -291,7 +304,7 @@ def main(tier, seed):
             continue
         d = common.save_replay(PROP, {"input.exp": f["text"].encode("latin-1"),
                                       "case.json": json.dumps({"kind": f["kind"], "cls": f.get("cls"), "tool": f["tool"], "exppp_o": f.get("exppp_o", True),
-                                                               "sig": want})},
+                                                               "sig": want, "f9_present": f.get("f9_present", False)})},
                                {"property": PROP, "sig": sig, "what": f["what"], "seed": seed, "tier": tier, "occurrences": len(fs),
                                 "tools": sorted(set(x["tool"] for x in fs))})
         ev.violations += 1
